@@ -376,6 +376,21 @@ fn gen_matrix_case(t: &mut Tape) -> Option<MatrixCase> {
                 format!("Foo{extra}, {opt}")
             }
         }
+        Target::Trait if !documented.contains(&target) => {
+            // an option that is not documented for traits stays rejected whatever stands next to it, in whatever position
+            let mut parts: Vec<&str> = vec![];
+            for c in ["delegate_by = ref", "mock_api = TrMock", "?Send", "unimock = false", "mockall = false"] {
+                if t.chance(1, 3) && c.split(' ').next() != opt.split(' ').next() {
+                    parts.push(c);
+                }
+            }
+            let at = t.choose(parts.len() + 1);
+            parts.insert(at, opt);
+            if t.chance(1, 4) {
+                parts.insert(0, "TraitImpl");
+            }
+            parts.join(", ")
+        }
         Target::Trait => {
             if opt.starts_with("TraitImpl") || t.flip() {
                 opt.to_string()
